@@ -101,15 +101,15 @@ type Schema struct {
 	NS []NS `json:"ns"`
 }
 
-func Str() Type             { return Type{K: TString} }
-func Lng() Type             { return Type{K: TLong} }
-func Boo() Type             { return Type{K: TBool} }
-func Ext(n string) Type     { return Type{K: TExt, Name: n} }
-func SetOf(e Type) Type     { return Type{K: TSet, Elem: &e} }
-func Rec(as ...Attr) Type   { return Type{K: TRecord, Attrs: as} }
-func EntRef(n string) Type  { return Type{K: TEntity, Name: n} }
-func Ref(n string) Type     { return Type{K: TRef, Name: n} }
-func A(n string, t Type) Attr { return Attr{Name: n, T: t} }
+func Str() Type                  { return Type{K: TString} }
+func Lng() Type                  { return Type{K: TLong} }
+func Boo() Type                  { return Type{K: TBool} }
+func Ext(n string) Type          { return Type{K: TExt, Name: n} }
+func SetOf(e Type) Type          { return Type{K: TSet, Elem: &e} }
+func Rec(as ...Attr) Type        { return Type{K: TRecord, Attrs: as} }
+func EntRef(n string) Type       { return Type{K: TEntity, Name: n} }
+func Ref(n string) Type          { return Type{K: TRef, Name: n} }
+func A(n string, t Type) Attr    { return Attr{Name: n, T: t} }
 func AOpt(n string, t Type) Attr { return Attr{Name: n, T: t, Opt: true} }
 
 // ---------------------------------------------------------------------------------------------
